@@ -104,3 +104,23 @@ func TestVerifBounded_FormatAmbiguousMark(t *testing.T) {
 	}
 	fmt.Printf("BOUNDED-OK cases=%d\n", cases)
 }
+
+// A whitespace-only line between two postings keeps the second posting in the transaction (the parser reads it as an
+// empty posting line); the formatter empties the line, and the emptied line ends the transaction.
+func TestVerifBounded_FormatWhitespaceOnlyLine(t *testing.T) {
+	cases := 0
+	for _, ws := range []string{"    ", "\t", "  \t "} {
+		doc := "2024-01-01 x\n    assets:a  1 USD\n" + ws + "\n    assets:b\n"
+		cases++
+		want, nerr := journalSummary(doc)
+		if nerr != 0 {
+			continue
+		}
+		f1 := formatOnce(doc)
+		if got, _ := journalSummary(f1); got != want {
+			fmt.Printf("BOUNDED-FAIL formatting cuts a transaction at a whitespace-only line: %q is rewritten to %q, which parses to\n%sinstead of\n%s", doc, f1, got, want)
+			return
+		}
+	}
+	fmt.Printf("BOUNDED-OK cases=%d\n", cases)
+}
